@@ -26,8 +26,9 @@ type heapProj struct {
 }
 
 type heapSys struct {
-	h *heap.Heap[int]
-	c int
+	prev *heap.Heap[int] // the receiver of the last Merge / Meld (the driver goes on with the result)
+	h    *heap.Heap[int]
+	c    int
 }
 
 func asc(v []int) []int {
@@ -86,8 +87,15 @@ func (s *heapSys) Do(o tt.Op) tt.Res {
 		out := asc(s.h.GetValues())
 		out = append(out, -1)
 		out = append(out, asc(other.GetValues())...)
+		s.prev = s.h
 		s.h = m
 		return tt.Res{Ok: true, S: out}
+	case "convprev": // the heap a Merge / Meld was called on is recycled under another comparator
+		if s.prev != nil {
+			s.prev.Convert(heapCmps[o.A[0]])
+			s.prev.Push(o.A[0])
+		}
+		return tt.Res{Ok: true}
 	case "sort":
 		r := heap.Sort(append([]int{}, o.A[1:]...), heapCmps[o.A[0]])
 		return tt.Res{Ok: true, S: append([]int{}, r...)}
@@ -173,7 +181,8 @@ func heapExplorer(depth int, tier string) *tt.Explorer {
 				return nil
 			}
 			r := []tt.Op{op("pop"), op("clear"), op("merge", 11, 20), op("meld", 31, 10, 10), op("meldx", 10, 20, 31), op("mergex", 20, 11),
-				op("pushn", 31, 5, 20), op("pushn", 50, 49, 48, 47, 46, 45, 44, 43, 42, 3, 41, 40, 2)}
+				op("pushn", 31, 5, 20), op("pushn", 50, 49, 48, 47, 46, 45, 44, 43, 42, 3, 41, 40, 2),
+				op("convprev", 1), op("convprev", 0)}
 			for _, v := range append([]int{0}, heapVals...) { // the zero value is a value like any other
 				r = append(r, op("push", v), op("delete", v))
 			}
@@ -250,6 +259,49 @@ func heapLinear(cfg Config, file string, runs, steps int) (int, error) {
 			default:
 				return op("pop"), true
 			}
+		})
+	}
+	// FromSlice / Sort of larger inputs that are "almost heaps": random permutations, arrays that satisfy the
+	// heap condition under the WRONG parent formula (i/2 instead of (i-1)/2), and heaps with one pair swapped
+	for i := 0; i < 240; i++ {
+		n := 7 + rng.Intn(14)
+		a := make([]int, n)
+		switch i % 3 {
+		case 0:
+			for j := range a {
+				a[j] = 1 + rng.Intn(60)
+			}
+		case 1:
+			a[0] = 1 + rng.Intn(5)
+			for j := 1; j < n; j++ {
+				a[j] = a[j/2] + rng.Intn(9)
+			}
+		default:
+			a[0] = 1 + rng.Intn(5)
+			for j := 1; j < n; j++ {
+				a[j] = a[(j-1)/2] + rng.Intn(9)
+			}
+			x, y := rng.Intn(n), rng.Intn(n)
+			a[x], a[y] = a[y], a[x]
+		}
+		c := []int{0, 0, 2}[i%3] // "<" (and "<=")
+		if i%2 == 1 {            // the same shapes for a max heap
+			for j := range a {
+				a[j] = 70 - a[j]
+			}
+			c = 1
+		}
+		cur := 0
+		sc := []tt.Op{op("fromslice", append([]int{c}, a...)...), op("drain")}
+		if i%4 == 3 {
+			sc = []tt.Op{op("sort", append([]int{c}, a...)...)}
+		}
+		ls.Run(&heapSys{}, func(st int) (tt.Op, bool) {
+			if cur >= len(sc) {
+				return tt.Op{}, false
+			}
+			cur++
+			return sc[cur-1], true
 		})
 	}
 	return ls.Close()
